@@ -36,6 +36,7 @@ type Event struct {
 	Block  int
 	Epoch  int
 	Ver    int           // heap version (consumption epoch) when the event happened
+	Cur    []bool        // call into the module: is argument k made only of memory reads that are still current at the call?
 	Heap   map[string]*T // enterloop: the tracked memory facts when the loop was entered (forgotten inside it)
 }
 
@@ -258,6 +259,12 @@ func (e *Explorer) val(s *pstate, v ssa.Value) *T {
 	case *ssa.Global:
 		return &T{Op: "gaddr", S: v.Name(), Ty: v.Type()}
 	case *ssa.Function:
+		// a method expression (*T).m is a thunk that calls m with the same arguments
+		if v.Synthetic != "" && strings.HasSuffix(v.Name(), "$thunk") {
+			if m := boundMethod(e.W, v); m != nil && len(m.Params) == len(v.Params) {
+				return &T{Op: "fn", S: fnKey(m), Ty: v.Type()}
+			}
+		}
 		return &T{Op: "fn", S: fnKey(v), Ty: v.Type()}
 	case *ssa.Builtin:
 		return &T{Op: "builtin", S: v.Name()}
@@ -929,18 +936,73 @@ func (e *Explorer) runFrom(b *ssa.BasicBlock, pred int, from int, s *pstate, sta
 				s.regs[in] = e.val(s, in.X) // promoted fields: select them from the outer value
 			}
 		case *ssa.Index:
+			// a constant string indexed by a value of an enumerated type is a table
+			if str := e.val(s, in.X); str.Op == "str" {
+				idx := stripConv(e.concrete(s, e.val(s, in.Index)))
+				if !idx.IsConst() && e.forkOnEnum(b, pred, ii, s, start, in.Index) {
+					return
+				}
+				if idx.IsConst() && idx.C >= 0 && idx.C < int64(len(str.S)) {
+					s.regs[in] = tconst(int64(str.S[idx.C]), in.Type())
+					continue
+				}
+			}
 			s.regs[in] = &T{Op: "elem", A: []*T{e.val(s, in.X), e.val(s, in.Index)}, Ty: in.Type()}
 			s.events = append(s.events, Event{Kind: "index", Instr: in, Pos: in.Pos(), Args: []*T{e.val(s, in.X), e.val(s, in.Index)}, Block: rb})
 		case *ssa.Lookup:
 			if _, isMap := in.X.Type().Underlying().(*types.Map); isMap {
+				// a map only the package initialiser fills, with constant keys: a table
+				if ents, ok := e.W.roInitMap(e.val(s, in.X)); ok && e.Fn.Synthetic == "" {
+					key := stripConv(e.concrete(s, e.val(s, in.Index)))
+					if !key.IsConst() && key.Op != "str" && e.forkOnEnum(b, pred, ii, s, start, in.Index) {
+						return
+					}
+					if key.IsConst() || key.Op == "str" {
+						var hit *T
+						for _, en := range ents {
+							if stripConv(en.key).Key() == key.Key() {
+								hit = en.val // a later store replaces an earlier one
+							}
+						}
+						elemTy := in.X.Type().Underlying().(*types.Map).Elem()
+						found := int64(1)
+						if hit == nil {
+							hit, found = zeroOf(elemTy), 0
+						}
+						if in.CommaOk {
+							s.regs[in] = &T{Op: "tuple", A: []*T{hit, tconst(found, types.Typ[types.Bool])}, Ty: in.Type()}
+						} else {
+							s.regs[in] = hit
+						}
+						continue
+					}
+				}
 				s.regs[in] = &T{Op: "lookup", A: []*T{e.val(s, in.X), e.val(s, in.Index)}, E: 1 + s.verAll*1000 + s.ver["[]"], Ty: in.Type()}
 			} else {
-				// string indexing
+				// string indexing; a constant string indexed by a value of an enumerated type is a table
+				if str := e.val(s, in.X); str.Op == "str" {
+					idx := stripConv(e.concrete(s, e.val(s, in.Index)))
+					if !idx.IsConst() && e.forkOnEnum(b, pred, ii, s, start, in.Index) {
+						return
+					}
+					if idx.IsConst() && idx.C >= 0 && idx.C < int64(len(str.S)) {
+						s.regs[in] = tconst(int64(str.S[idx.C]), in.Type())
+						continue
+					}
+				}
 				s.regs[in] = &T{Op: "elem", A: []*T{e.val(s, in.X), e.val(s, in.Index)}, Ty: in.Type()}
 				s.events = append(s.events, Event{Kind: "index", Instr: in, Pos: in.Pos(), Args: []*T{e.val(s, in.X), e.val(s, in.Index)}, Block: rb})
 			}
 		case *ssa.Convert:
 			s.regs[in] = &T{Op: "conv", S: typeName(in.Type()), A: []*T{e.val(s, in.X)}, Ty: in.Type()}
+			// string(r) of a constant rune or byte is a constant string
+			if bt, ok := in.Type().Underlying().(*types.Basic); ok && bt.Kind() == types.String {
+				if st, ok := in.X.Type().Underlying().(*types.Basic); ok && st.Info()&types.IsInteger != 0 {
+					if x := stripConv(e.val(s, in.X)); x.IsConst() {
+						s.regs[in] = tstr(string(rune(x.C)))
+					}
+				}
+			}
 		case *ssa.ChangeType:
 			s.regs[in] = e.val(s, in.X)
 		case *ssa.ChangeInterface:
@@ -1060,6 +1122,11 @@ func (e *Explorer) runFrom(b *ssa.BasicBlock, pred int, from int, s *pstate, sta
 			if callee != nil && in.Call.StaticCallee() == nil && cv == nil {
 				e.resolved = callee // the function value resolved on this path
 				e.resolvedRecv = boundRecv
+			}
+			if done, took := e.modelIndexByte(b, pred, ii, s, start, in); took {
+				return
+			} else if done {
+				continue
 			}
 			e.call(s, in, &in.Call, in, rb)
 			e.resolved, e.resolvedRecv = nil, nil
@@ -1489,6 +1556,26 @@ func (e *Explorer) call(s *pstate, in ssa.Instruction, c *ssa.CallCommon, v ssa.
 	e.callEvent(s, "call", in, c, v, blk)
 }
 
+// current: would every memory read inside t give the same term if it were
+// made now?
+func (e *Explorer) current(s *pstate, t *T) bool {
+	ok := true
+	t.walk(func(x *T) bool {
+		if ok && x.E != 0 && (x.Op == "sel" || x.Op == "elem" || x.Op == "deref" || x.Op == "global") {
+			lv := *x
+			lv.E, lv.k, lv.FV = 0, "", nil
+			// (unknown code — reporter callbacks — is assumed not to change the
+			// simulator behind its back: the documented assumption of BOUNDS;
+			// stores and calls into the module do count)
+			if r := e.loadLV(s, &lv, x.Ty); r.Key() != x.Key() && !(r.E%1000 == x.E%1000 && stripEpoch(r).Key() == stripEpoch(x).Key()) {
+				ok = false
+			}
+		}
+		return ok
+	})
+	return ok
+}
+
 func (e *Explorer) callEvent(s *pstate, kind string, in ssa.Instruction, c *ssa.CallCommon, v ssa.Value, blk int) {
 	var args []*T
 	s.seq++
@@ -1511,6 +1598,11 @@ func (e *Explorer) callEvent(s *pstate, kind string, in ssa.Instruction, c *ssa.
 		args = append(args, e.val(s, a))
 	}
 	ev.Args = args
+	if kind == "call" && ev.Callee != nil && len(ev.Callee.Blocks) > 0 && (ev.Callee.Pkg == e.W.SLib || ev.Callee.Pkg == e.W.SCmd) {
+		for _, a := range args {
+			ev.Cur = append(ev.Cur, e.current(s, a))
+		}
+	}
 	if kind == "call" && v != nil && e.modelBuilder(s, &ev, v) {
 		s.events = append(s.events, ev)
 		return
@@ -1962,6 +2054,99 @@ func (e *Explorer) modelContains(s *pstate, ev *Event, v ssa.Value) bool {
 	return true
 }
 
+// modelIndexByte: strings.IndexByte / IndexRune / ContainsRune over a
+// constant string is a chain of comparisons of the character with each
+// character of the string: the path is split, one continuation per distinct
+// character plus one for "none of them", and the result is a constant on
+// each.  done: the result register is set; took: the exploration was taken over.
+func (e *Explorer) modelIndexByte(b *ssa.BasicBlock, pred, ii int, s *pstate, start int, in *ssa.Call) (done, took bool) {
+	cal := in.Call.StaticCallee()
+	if cal == nil || cal.Pkg == nil || cal.Pkg.Pkg.Path() != "strings" || len(in.Call.Args) != 2 {
+		return false, false
+	}
+	name := cal.Name()
+	if name != "IndexByte" && name != "IndexRune" && name != "ContainsRune" {
+		return false, false
+	}
+	str := e.val(s, in.Call.Args[0])
+	if str.Op != "str" || len(str.S) == 0 || len(str.S) > 16 {
+		return false, false
+	}
+	for _, c := range []byte(str.S) {
+		if c >= 0x80 {
+			return false, false
+		}
+	}
+	x := e.val(s, in.Call.Args[1])
+	result := func(i int) *T {
+		if name == "ContainsRune" {
+			if i >= 0 {
+				return tconst(1, in.Type())
+			}
+			return tconst(0, in.Type())
+		}
+		return tconst(int64(i), in.Type())
+	}
+	known := func(c byte) (val, have bool) {
+		k := mkeq(x, tconst(int64(c), x.Ty)).Key()
+		for _, cd := range s.conds {
+			if cd.Atom.Key() == k {
+				return cd.Val, true
+			}
+		}
+		return false, false
+	}
+	var distinct []byte
+	for i := 0; i < len(str.S); i++ {
+		if strings.IndexByte(str.S, str.S[i]) == i {
+			distinct = append(distinct, str.S[i])
+		}
+	}
+	allFalse := true
+	for _, c := range distinct {
+		v, have := known(c)
+		if have && v {
+			s.regs[in] = result(strings.IndexByte(str.S, c))
+			return true, false
+		}
+		if !have {
+			allFalse = false
+		}
+	}
+	if allFalse {
+		s.regs[in] = result(-1)
+		return true, false
+	}
+	if e.probing || len(s.stack) > 8 {
+		return false, false
+	}
+	for k := 0; k <= len(distinct); k++ {
+		ns := s.clone()
+		ns.curBlk = s.rootBlk(b)
+		ok := true
+		for j, c := range distinct {
+			if _, have := known(c); have && k != j {
+				continue
+			}
+			if !e.assume(ns, mkeq(x, tconst(int64(c), x.Ty)), k == j, in.Pos()) {
+				ok = false
+				break
+			}
+			if k == j {
+				break
+			}
+		}
+		if !ok {
+			continue
+		}
+		e.runFrom(b, pred, ii, ns, start)
+		if e.Err != nil {
+			return false, true
+		}
+	}
+	return false, true
+}
+
 // concrete: a term of an enumerated type that the path has narrowed to one
 // value is that value.
 func (e *Explorer) concrete(s *pstate, t *T) *T {
@@ -1997,6 +2182,15 @@ func (e *Explorer) forkOnTableIndex(b *ssa.BasicBlock, pred, ii int, s *pstate, 
 		root = root.A[0]
 	}
 	if !(root.Op == "global" && e.W.readOnlyGlobal(root.S)) && !e.W.initialised(root) {
+		return false
+	}
+	return e.forkOnEnum(b, pred, ii, s, start, index)
+}
+
+// forkOnEnum continues from b.Instrs[ii] once per value the enumerated index
+// can still have on this path.
+func (e *Explorer) forkOnEnum(b *ssa.BasicBlock, pred, ii int, s *pstate, start int, index ssa.Value) bool {
+	if e.probing || len(s.stack) > 8 {
 		return false
 	}
 	idx := stripConv(e.val(s, index))
